@@ -48,15 +48,17 @@ CONSTANTS Ops,      \* operations to enumerate
                     \* "no_purge" (start-up does not purge marked messages), "row_first" (APPEND commits the
                     \* row before the literal is stored and nothing re-downloads), "split_move" (MOVE removes
                     \* and adds in two transactions)
+          ErrThenKill, \* TRUE: also enumerate "step k fails, the operation is answered, then the process is killed"
           Emit      \* TRUE: print every terminal state as JSON
 
 Recovery == "Recovered Messages"
 
 \* message ids; Content maps an id to the bytes it carries (r1 is the copy of the APPEND literal that
-\* ends up in the recovery mailbox, m1b the new incarnation of m1 after MessageUpdated)
-Content == [m1 |-> "m1", m2 |-> "m2", m3 |-> "m3", m4 |-> "m4", m5 |-> "m5", m1b |-> "m1v2", r1 |-> "m4"]
+\* ends up in the recovery mailbox, m1b the new incarnation of m1 after MessageUpdated, r0 a message rescued
+\* into the recovery mailbox earlier, n0 its new incarnation when it is moved / copied out of there)
+Content == [m1 |-> "m1", m2 |-> "m2", m3 |-> "m3", m4 |-> "m4", m5 |-> "m5", m1b |-> "m1v2", r1 |-> "m4", r0 |-> "m0", n0 |-> "m0"]
 \* the connector can be asked for the literal of every message except recovered ones (state.getLiteral)
-Redownloadable(id) == id # "r1" /\ Design # "row_first"
+Redownloadable(id) == id \notin {"r0", "r1"} /\ Design # "row_first"
 
 -----------------------------------------------------------------------------
 (* steps *)
@@ -107,6 +109,16 @@ StepsOf(op) ==
           ELSE H(<<Begin, Rd("tx.MailboxFilterContains"), Rd("tx.MailboxFilterContains"), Rd("tx.GetMailboxMessageCountAndUID"),
                    Remove("A", "m1"), Add("B", "m1"), Commit>>, "flush"))
          \o H(EmptyTx, "flush") \o H(EmptyTx, "flush") \o H(EmptyTx, "end")
+    [] op = "MOVE_REC" ->    \* MOVE 1 B with the recovery mailbox selected: actionMoveMessagesOutOfRecoveryMailbox re-creates the
+                             \* message (new id n0), marks the old one deleted, takes it out of the recovery mailbox, adds the new one to B
+         H(<<Begin, Rd("tx.GetImportedMessageData"), Get("r0"), Rd("tx.GetMessageIDFromRemoteID"), Set("n0"), CreateMsg("n0", {}),
+             Mark("tx.MarkMessageAsDeleted", "r0"), Remove(Recovery, "r0"),
+             Rd("tx.MailboxFilterContains"), Rd("tx.GetMailboxMessageCountAndUID"), Add("B", "n0"), Commit>>, "flush")
+         \o H(EmptyTx, "flush") \o H(EmptyTx, "flush") \o H(EmptyTx, "end")
+    [] op = "COPY_REC" ->    \* COPY 1 B with the recovery mailbox selected
+         H(<<Begin, Rd("tx.GetImportedMessageData"), Get("r0"), Rd("tx.GetMessageIDFromRemoteID"), Set("n0"), CreateMsg("n0", {}),
+             Rd("tx.MailboxFilterContains"), Rd("tx.GetMailboxMessageCountAndUID"), Add("B", "n0"), Commit>>, "flush")
+         \o H(EmptyTx, "flush") \o H(EmptyTx, "end")
     [] op = "EXPUNGE" ->     \* EXPUNGE in A (m2 carries \Deleted)
          H(<<Begin, Rd("tx.MailboxFilterContains"), Remove("A", "m2"), Commit>>, "flush")
          \o H(EmptyTx, "flush") \o H(EmptyTx, "flush") \o H(EmptyTx, "end")
@@ -162,11 +174,11 @@ BaseDB ==
                   [] b = "A"      -> Box("v:A", 3, TRUE, <<Ent(1, "m1", FALSE), Ent(2, "m2", TRUE)>>)
                   [] b = "A/K"    -> Box("v:A/K", 1, FALSE, <<>>)
                   [] b = "B"      -> Box("v:B", 2, TRUE, <<Ent(1, "m3", FALSE)>>)
-                  [] b = Recovery -> Box("any", 1, TRUE, <<>>)],
-   rows  |-> [m \in {"m1", "m2", "m3"} |-> IF m = "m1" THEN Row({"Seen"}) ELSE Row({})],
+                  [] b = Recovery -> Box("any", 2, TRUE, <<Ent(1, "r0", FALSE)>>)],   \* r0: an APPEND whose store step failed once
+   rows  |-> [m \in {"m1", "m2", "m3", "r0"} |-> IF m = "m1" THEN Row({"Seen"}) ELSE Row({})],
    dsubs |-> {}]
 
-BaseDisk == [db |-> BaseDB, tx |-> BaseDB, open |-> FALSE, files |-> {"m1", "m2", "m3"}]
+BaseDisk == [db |-> BaseDB, tx |-> BaseDB, open |-> FALSE, files |-> {"m1", "m2", "m3", "r0"}]
 
 Range(s) == {s[i] : i \in DOMAIN s}
 Without(f, keys) == [x \in DOMAIN f \ keys |-> f[x]]
@@ -226,19 +238,19 @@ PreDisk(op) ==
   ELSE BaseDisk
 PostDisk(op) == RecoverDisk(RunAll(PreDisk(op), StepsOf(op), 1))
 
-\* what a client can see: mailboxes with their messages, and the subscription list
-Visible(d) == [boxes |-> d.boxes, dsubs |-> d.dsubs, rows |-> [m \in {e.id : e \in UNION {Range(d.boxes[b].msgs) : b \in DOMAIN d.boxes}} |-> d.rows[m].flags]]
-UserBoxes(d) ==
-  LET ub == Without(d.boxes, {Recovery})
-  IN [boxes |-> ub, dsubs |-> d.dsubs,
-      flags |-> [m \in {e.id : e \in UNION {Range(ub[b].msgs) : b \in DOMAIN ub}} |-> d.rows[m].flags]]
+\* what a client can see: mailboxes with their messages and flags, and the subscription list
+ViewOf(boxes, d) ==
+  [boxes |-> boxes, dsubs |-> d.dsubs,
+   flags |-> [m \in {e.id : e \in UNION {Range(boxes[b].msgs) : b \in DOMAIN boxes}} |-> d.rows[m].flags]]
+View(d)     == ViewOf(d.boxes, d)
+UserView(d) == ViewOf(Without(d.boxes, {Recovery}), d)      \* without the recovery mailbox
 
 -----------------------------------------------------------------------------
 VARIABLES op, list, pc, disk, mode, fault, acked, trace, live
 vars == <<op, list, pc, disk, mode, fault, acked, trace, live>>
 
 NoFault == [k |-> 0, kind |-> "none"]
-LiveNone == [none |-> TRUE, v |-> UserBoxes(BaseDB)]
+LiveNone == [none |-> TRUE, v |-> BaseDB]
 
 Init == /\ op \in Ops
         /\ list = StepsOf(op)
@@ -286,9 +298,16 @@ FailStep == /\ mode = "run" /\ fault = NoFault /\ pc <= Len(list)
                     /\ mode' = "err"
             /\ UNCHANGED <<op, acked, live>>
 
+\* a step failed, the operation has been answered, and now the process dies instead of shutting down
+CrashAfterError == /\ ErrThenKill /\ Running /\ fault.kind = "error" /\ pc = Len(list) + 1 /\ acked # "none"
+                   /\ fault' = [fault EXCEPT !.kind = "errkill"]
+                   /\ disk' = Rollback(disk)
+                   /\ mode' = "crashed"
+                   /\ UNCHANGED <<op, list, pc, acked, trace, live>>
+
 Ack == /\ Running /\ pc = Len(list) + 1 /\ acked = "none"
        /\ acked' = IF mode = "err" THEN AckOnError(op) ELSE "OK"
-       /\ live' = [none |-> FALSE, v |-> UserBoxes(disk.db)]
+       /\ live' = [none |-> FALSE, v |-> disk.db]
        /\ UNCHANGED <<op, list, pc, disk, mode, fault, trace>>
 
 Close == /\ Running /\ acked # "none"
@@ -302,7 +321,7 @@ Recover == /\ mode \in {"crashed", "closed"}
 
 Done == mode = "recovered" /\ UNCHANGED vars
 
-Next == Step \/ Crash \/ CrashAcked \/ FailStep \/ Ack \/ Close \/ Recover \/ Done
+Next == Step \/ Crash \/ CrashAcked \/ FailStep \/ CrashAfterError \/ Ack \/ Close \/ Recover \/ Done
 Spec == Init /\ [][Next]_vars
 
 -----------------------------------------------------------------------------
@@ -314,13 +333,17 @@ Post == PostDisk(op).db
 Listed(d) == UNION {Range(d.boxes[b].msgs) : b \in DOMAIN d.boxes}
 
 \* everything acknowledged before the crash / shutdown is in the committed database
-AckedSurvives == (Recovered /\ acked = "OK") => Visible(disk.db) = Visible(Post)
+AckedSurvives == (Recovered /\ acked = "OK") => View(disk.db) = View(Post)
 
-\* the user's mailboxes and subscriptions are those before or those after the operation - never a mixture;
-\* the recovery mailbox only ever gains (it is where a failing APPEND is rescued to)
-BeforeOrAfter ==
-  Recovered => /\ UserBoxes(disk.db) \in {UserBoxes(Pre), UserBoxes(Post)}
-               /\ \A e \in Range(Pre.boxes[Recovery].msgs) : e \in Range(disk.db.boxes[Recovery].msgs)
+\* all mailboxes and the subscriptions are those before or those after the operation - never a mixture.  The one
+\* exception is gluon's rescue of a failing APPEND: the user's mailboxes are before-or-after and the recovery
+\* mailbox has gained the message (it never loses one that way).
+BoA(d) ==
+  \/ View(d) \in {View(Pre), View(Post)}
+  \/ /\ op = "APPEND" /\ fault.kind \in {"error", "errkill"}
+     /\ UserView(d) \in {UserView(Pre), UserView(Post)}
+     /\ \A e \in Range(Pre.boxes[Recovery].msgs) : e \in Range(d.boxes[Recovery].msgs)
+BeforeOrAfter == Recovered => BoA(disk.db)
 
 \* a message someone was told NO about is not lost either: after a failed APPEND the bytes are in the target or rescued
 AppendNeverLost ==
@@ -336,7 +359,7 @@ NoOrphans ==
                /\ \A m \in DOMAIN disk.db.rows : ~disk.db.rows[m].marked
 
 \* the live server after a failed step (before any restart) already shows before-or-after
-LiveBeforeOrAfter == ~live.none => live.v \in {UserBoxes(Pre), UserBoxes(Post)}
+LiveBeforeOrAfter == ~live.none => BoA(live.v)
 
 -----------------------------------------------------------------------------
 Proj(dk) == [boxes |-> dk.db.boxes, rows |-> dk.db.rows, dsubs |-> dk.db.dsubs, files |-> dk.files]
@@ -345,7 +368,7 @@ PrintCase ==
   (Emit /\ Recovered) =>
      PrintT(ToJson([op |-> op, k |-> fault.k, kind |-> fault.kind, nsteps |-> Len(StepsOf(op)),
                     steps |-> trace, ack |-> acked,
-                    live |-> [none |-> live.none, boxes |-> live.v.boxes, dsubs |-> live.v.dsubs, flags |-> live.v.flags],
+                    live |-> [none |-> live.none, boxes |-> View(live.v).boxes, dsubs |-> View(live.v).dsubs, flags |-> View(live.v).flags],
                     allowed |-> {Proj(disk)},
                     pre |-> Proj(PreDisk(op)), post |-> Proj(PostDisk(op)),
                     content |-> Content]))
